@@ -83,7 +83,7 @@ def to_term(case, ob):
 
 # ----------------------------------------------------------------------------- generators
 NAMES = ["a", "b", "c", "items", "item", "itemsx", "Items", "_", "_x1", "aé", "A_9", "name", "i", "x" * 12,
-         "éx"[::-1], "b2", "a١", "a中", "n²", "items1", "itemsé", "_items", "Items_", "größe", "x²", "t_α", "Ünï"]
+         "éx"[::-1], "b2", "a١", "a中", "n²", "items1", "itemsé", "_items", "Items_", "größe", "x²", "t_α", "Ünï", "anytrait", "trait", "metadata", "notify", "anytrait_", "star"]
 EXTRA = list("ab_19AZz+*.:,[] \t\n\r\f") + ["items", "\x0b", "-", "(", ")", "é", "€", "١", "ß", "\u00a0", "\u0301", "#",
                                               "'", "中", "ñ", "²", "ª", "\u2028", "\x1c", "\x85", "\u200b", "‿", "\\", "\x00"]
 
@@ -250,7 +250,8 @@ def corpus():
     texts = ["[a.*, b.c]", "[a:*,b]", "[*]", "a.[b,b]", "a:[items , items]", "a.[b.c,b.c]",           # findings
              "*", "name.*", "*.name", "[a, *].name", "b.*", "a.b.c", "a:b:c", "a, b", "items", "+items", "+ a",
              "container.items.value", "container:items:*", "[a,b].c", "a.[b,c]", "foo.[bar,baz]", "foo:[bar,baz]",
-             "foo.+updated", "itemsa", "items a", "a b", "a1.b_2", "1a", "a.é", "aé.b", "größe", "x²", "t_α", "a.größe:x²", "+t_α", "[größe,x²].t_α", "", " ", "a..b", "a.",
+             "foo.+updated", "itemsa", "items a", "a b", "a1.b_2", "1a", "a.é", "aé.b", "anytrait", "a:anytrait", "[anytrait,b]:c", "anytrait.b", "+anytrait", "trait.metadata:notify", "\n", "\t ", " \r\n ",
+             "größe", "x²", "t_α", "a.größe:x²", "+t_α", "[größe,x²].t_α", "", " ", "a..b", "a.",
              ".a", "[a", "a]", "[]", "a,,b", "+", "+*", "+[a]", "a.[b.c,b:c]", "[a,a].b", "a,a", "[[[[a]]]]", "a\x0bb",
              "a.[b,c].d", "a:[b,c:[d,e.f]].g",
              # branches after a connector that begin alike and differ further down or in length (distinct patterns)
